@@ -61,6 +61,10 @@ def cases(tier, seed):
                     edges = [list(es[i][::-1] if flips[k] else es[i]) for k, i in enumerate(order)]
                     yield dict(env='ideal' if ground else 'free', f=f, pts=pts, edges=edges,
                                segsets=[[s[i] for i in order] for s in segsets])
+                    # explicit tags that are neither consecutive nor in listing order (objects are numbered by tag)
+                    if flips == (0,) * n or flips == (1,) * n:
+                        yield dict(env='ideal' if ground else 'free', f=f, pts=pts, edges=edges, segsets=[[2] * n, [1, 2, 3][:n]],
+                                   tags=[(7, 2, 5)[i] for i in range(n)])
         # one wire described elsewhere and brought into place by a per-tag --geo-translate/-scale/-rotate through main():
         # elsewhere = with an end on the far end of another wire (a junction that must vanish), or far away
         for es in geom.edge_sets(5, D):
@@ -204,8 +208,8 @@ def eval_extra(c):
 def _mkcase(c, segs):
     pts = [np.array(p, float) for p in c['pts']]
     ws = []
-    for (a, b), n in zip(c['edges'], segs):
-        ws.append(geom.wire(pts[a], pts[b], n, 1e-4))
+    for k, ((a, b), n) in enumerate(zip(c['edges'], segs)):
+        ws.append(geom.wire(pts[a], pts[b], n, 1e-4, tag=(c['tags'][k] if c.get('tags') else None)))
     return dict(f=c['f'], env=c['env'], wires=ws)
 
 
@@ -318,6 +322,14 @@ def check_model(m, case, ground):
     geo_part = rep.split('**** ANTENNA GEOMETRY ****')[1]
     rows = [l for l in geo_part.split('\n') if len(l.split()) == 7 and l.split()[-1].isdigit() and l.split()[0] != '-']
     nums = [int(l.split()[-1]) for l in rows]
+    # END1 / END2 columns: tag of the object each half of the pulse lies on (0 = free end)
+    if len(rows) == len(m.pulses):
+        for l, p in zip(rows, m.pulses):
+            t = l.split()
+            for h in (0, 1):
+                cval = int(t[4 + h])
+                if cval != 0 and abs(cval) != p.geo[h].tag:
+                    v.append(('REPORT-END', 'pulse %d is reported with object %d at END%d, its segment there belongs to object %d' % (p.idx + 1, cval, h + 1, p.geo[h].tag)))
     if nums != list(range(1, N + 1)):
         v.append(('REPORT', 'geometry table pulse numbers %s, expected 1..%d' % (nums, N)))
     return v, N, junc, gnd
@@ -398,7 +410,7 @@ def evaluate(c):
         ev += 1
         N, junc, gnd, free, amb = topo.expected_count(case, ground)
         und = sorted((tuple(sorted(e)), s) for e, s in zip(c['edges'], segs))
-        cn = '%s|%s|%s|%s' % (c['env'], und, c.get('perturb'), c.get('perturb2'))
+        cn = '%s|%s|%s|%s%s' % (c['env'], und, c.get('perturb'), c.get('perturb2'), '|tags' if c.get('tags') else '')
         if 'moved' in c:
             mv = c['moved']
             cn += '|moved%d:%s%s' % (mv['wire'], mv['how'], [round(x, 6) for x in mv.get('d', [])])
@@ -426,7 +438,11 @@ def evaluate(c):
         if both:
             skips['both-ends-grounded(accepted)'] = skips.get('both-ends-grounded(accepted)', 0) + 1
             continue
+        if c.get('tags'):
+            case = dict(case, wires=sorted(case['wires'], key=lambda w: w['tag']))
         vv, N, junc, gnd = check_model(m, case, ground)
+        if c.get('tags'):
+            vv = [(s_ + '-tags', msg + ' [tags %s]' % c['tags']) for s_, msg in vv]
         if 'moved' in c:
             vv = [(s_ + '-moved', msg + ' [wire %d moved into place by --geo-%s]' % (c['moved']['wire'] + 1, c['moved']['how'])) for s_, msg in vv]
         if amb:
